@@ -3,6 +3,7 @@ package main
 import (
 	"go/token"
 	"regexp"
+	"sort"
 	"strings"
 
 	"golang.org/x/tools/go/ssa"
@@ -57,8 +58,27 @@ func checkC02(e *Engine, r *Report) {
 			gs := e.canonFunc(gd, gp, neutralSibling)
 			for i := range rs {
 				rs[i].Text = strings.ReplaceAll(rs[i].Text, emptyHashRepo, emptyHashGeth) // D2
+				for k := range rs[i].Ctx {
+					rs[i].Ctx[k] = strings.ReplaceAll(rs[i].Ctx[k], emptyHashRepo, emptyHashGeth)
+				}
 			}
 			mr, mg := lcsMatch(rs, gs)
+			pairOf := map[int]int{} // repo statement index → reference statement index
+			{
+				j := 0
+				for i := range rs {
+					if !mr[i] {
+						continue
+					}
+					for j < len(gs) && !mg[j] {
+						j++
+					}
+					if j < len(gs) {
+						pairOf[i] = j
+						j++
+					}
+				}
+			}
 			// second pass: unmatched statements that differ only by the name of a local count as matched (rename tolerance)
 			for i := range rs {
 				if mr[i] {
@@ -80,6 +100,7 @@ func checkC02(e *Engine, r *Report) {
 						}
 						if okOrder {
 							mr[i], mg[j] = true, true
+							pairOf[i] = j
 							break
 						}
 					}
@@ -149,6 +170,52 @@ func checkC02(e *Engine, r *Report) {
 					pos = e.Pos(s.Pos)
 				}
 			}
+			// NESTING: a matched statement must sit under the same (matched) conditions as in the reference — moving a statement
+			// into or out of an `if` keeps the statement order and would otherwise go unnoticed
+			{
+				matchedR, matchedG := map[string]bool{}, map[string]bool{}
+				for i, j := range pairOf {
+					matchedR[anonymise(rs[i].Text)] = true
+					matchedG[anonymise(gs[j].Text)] = true
+				}
+				filter := func(ctx []string, m map[string]bool) []string {
+					var out []string
+					for _, h := range ctx {
+						k := anonymise(strings.TrimPrefix(h, "else of "))
+						if m[k] {
+							out = append(out, anonymise(h))
+						}
+					}
+					return out
+				}
+				idx := make([]int, 0, len(pairOf))
+				for i := range pairOf {
+					idx = append(idx, i)
+				}
+				sort.Ints(idx)
+				for _, i := range idx {
+					j := pairOf[i]
+					cr, cg := filter(rs[i].Ctx, matchedR), filter(gs[j].Ctx, matchedG)
+					if strings.Join(cr, " ⊃ ") != strings.Join(cg, " ⊃ ") {
+						bad = append(bad, "statement is nested under different conditions than in the reference ("+e.Pos(rs[i].Pos)+"): `"+abbreviate(rs[i].Text)+"` — copy: ["+abbreviate(strings.Join(cr, " ⊃ "))+"], reference: ["+abbreviate(strings.Join(cg, " ⊃ "))+"]")
+						pos = e.Pos(rs[i].Pos)
+					}
+				}
+				// a documented repo-only condition (D5) may enclose only the statements the deviation is about: the credit to the
+				// sender and the pure local computation feeding it
+				for _, s2 := range rs {
+					for _, h := range s2.Ctx {
+						if h != "if #st . SenderPaidTheFee {" {
+							continue
+						}
+						rel, why := stateRelevant(s2.Text)
+						if rel && !strings.HasPrefix(s2.Text, "#st . state . AddBalance ( #st . msg . From ( ) , #") {
+							bad = append(bad, "D5 makes only the sender's refund credit conditional on SenderPaidTheFee, but this statement ("+why+") is now under that condition too ("+e.Pos(s2.Pos)+"): `"+abbreviate(s2.Text)+"`")
+							pos = e.Pos(s2.Pos)
+						}
+					}
+				}
+			}
 			if name == "refundGas" {
 				// the AddBalance credit must be textually matched (same position relative to its neighbours) — it is matched by
 				// LCS when unchanged; if it shows up as repo-only it moved relative to the refund-counter update
@@ -178,13 +245,36 @@ func checkC02(e *Engine, r *Report) {
 
 	sdbMut := []string{"CreateAccount", "SubBalance", "AddBalance", "SetNonce", "SetCode", "SetState", "Suicide"}
 	r.Rule("R3", "PAIR", "EIP-158 touch semantics: every StateDB mutator (CreateAccount, SubBalance, AddBalance, SetNonce, SetCode, SetState, Suicide) marks its address as touched on every path, including zero amounts and early returns", 7, func() {
-		for _, m := range sdbMut {
-			fn := e.Fn(pkgEvmVM, "cStateDb."+m)
-			addr := ssa.Value(fn.Params[1])
+		// "always touches parameter i": every return of the function passes d.touched.Add(param i) — directly or through a
+		// private helper of the package that always touches the parameter the address is handed to (summary, any number of sites)
+		memo := map[string]int{} // 1 yes, 2 no, 3 in progress
+		var alwaysTouches func(fn *ssa.Function, pi int, depth int) bool
+		alwaysTouches = func(fn *ssa.Function, pi int, depth int) bool {
+			key := fnKey(fn) + "#" + itoa(pi)
+			switch memo[key] {
+			case 1:
+				return true
+			case 2, 3:
+				return false
+			}
+			memo[key] = 3
+			addr := ssa.Value(fn.Params[pi])
 			adds := callsIn(fn, false, func(c ssa.CallInstruction) bool {
-				return isCallTo(c, CallSpec{pkgEvmVM, "AccountTracker", "Add"}) && fieldsOnChainHas(c.Common().Args[0], "touched") && resolveLocal(c.Common().Args[1]) == addr
+				if isCallTo(c, CallSpec{pkgEvmVM, "AccountTracker", "Add"}) && fieldsOnChainHas(c.Common().Args[0], "touched") && resolveLocal(c.Common().Args[1]) == addr {
+					return true
+				}
+				h := c.Common().StaticCallee()
+				if depth <= 0 || !privHelper(pkgEvmVM)(h) {
+					return false
+				}
+				for ai, a := range c.Common().Args {
+					if resolveLocal(a) == addr && ai < len(h.Params) && alwaysTouches(h, ai, depth-1) {
+						return true
+					}
+				}
+				return false
 			})
-			ok := len(adds) > 0
+			ok := len(adds) > 0 && len(returnsOf(fn)) > 0
 			if ok {
 				for _, ret := range returnsOf(fn) {
 					pass := false
@@ -198,6 +288,16 @@ func checkC02(e *Engine, r *Report) {
 					}
 				}
 			}
+			if ok {
+				memo[key] = 1
+			} else {
+				memo[key] = 2
+			}
+			return ok
+		}
+		for _, m := range sdbMut {
+			fn := e.Fn(pkgEvmVM, "cStateDb."+m)
+			ok := alwaysTouches(fn, 1, 2)
 			r.Check(ok, "touch › cStateDb."+m, e.Pos(fn.Pos()), "d.touched.Add(address) dominates every return", "the mutator can return without marking the account touched: an empty account touched by this operation is not deleted at commit (EIP-158/161 divergence from go-ethereum)")
 		}
 	})
@@ -419,7 +519,9 @@ func checkC02(e *Engine, r *Report) {
 			}
 			n++
 			f := c.Parent()
-			isElem := func(v ssa.Value) bool { return samePath(resolveLocal(v), resolveLocal(arg)) || resolveLocal(v) == resolveLocal(arg) }
+			isElem := func(v ssa.Value) bool {
+				return samePath(resolveLocal(v), resolveLocal(arg)) || resolveLocal(v) == resolveLocal(arg)
+			}
 			gs := eqGuards(f, false, isElem, isZero)
 			if !mustPass(f, c, gs) {
 				okAll = false
@@ -479,6 +581,11 @@ func checkC02(e *Engine, r *Report) {
 		r.Check(lit["GetHash"] != nil && sliceFrom(lit["GetHash"]).HasCall(CallSpec{pkgEvmKeeper, "Keeper", "GetHashFn"}), "NewEVM › GetHash", e.Pos(ne.Pos()), "k.GetHashFn(ctx)", "BLOCKHASH does not come from the keeper's hash function")
 	})
 
+	r.Rule("R11", "PAIR", "SELFDESTRUCT semantics of go-ethereum's StateDB.Suicide: every call that reports success has zeroed the account's balance (also a repeated SELFDESTRUCT of a contract that was re-funded in between) — opSelfdestruct credits the beneficiary with the balance first, so a success without the debit duplicates it", 1, func() {
+		fn := e.Fn(pkgEvmVM, "cStateDb.Suicide")
+		r.Check(suicideClearsBalance(e), "x/evm/vm.cStateDb.Suicide › success ⇒ balance cleared (as geth)", e.Pos(fn.Pos()), "every `true` return passed SubBalance(address, GetBalance(address)) or found the balance zero", "Suicide can report success without zeroing the balance: go-ethereum zeroes it on every call, so balances diverge from the reference (and coins are duplicated) when a contract self-destructs again after being re-funded in the same transaction")
+	})
+
 	r.Rule("R10", "KEY-INJECTIVE", "contract storage and code are keyed injectively: StateKey(address, slot) = prefix ‖ address ‖ slot, AddressStoragePrefix(address) = prefix ‖ address (go-ethereum keeps one storage trie per account: no two (account, slot) pairs may share a record)", 2, func() {
 		e.checkKeyBuilders(r, pkgEvmTypes, []string{"AddressStoragePrefix", "StateKey"}, "two different (account, slot) pairs share one storage record: SSTORE in one contract changes what SLOAD returns in another")
 	})
@@ -517,4 +624,26 @@ func textsOf(cs []canonStmt) []string {
 		out[i] = c.Text
 	}
 	return out
+}
+
+// deliveryFlagScope: execution must not depend on flags that only the delivery path raises. The one documented exception is the
+// sender's refund credit in refundGas (D5). Returns the state-relevant statements of the copied state transition that are
+// nested under `if st.SenderPaidTheFee` other than that credit.
+func deliveryFlagScope(e *Engine) (offenders []string, nUnder int) {
+	for _, name := range []string{"to", "buyGas", "preCheck", "TransitionDb", "refundGas", "gasUsed"} {
+		rd, rp := e.Decl(pkgEvmKeeper, "StateTransition."+name)
+		for _, s2 := range e.canonFunc(rd, rp, neutralSibling) {
+			for _, h := range s2.Ctx {
+				if !strings.Contains(h, "SenderPaidTheFee") {
+					continue
+				}
+				nUnder++
+				rel, why := stateRelevant(s2.Text)
+				if rel && !(name == "refundGas" && strings.HasPrefix(s2.Text, "#st . state . AddBalance ( #st . msg . From ( ) , #")) {
+					offenders = append(offenders, "StateTransition."+name+" ("+why+") at "+e.Pos(s2.Pos)+": `"+abbreviate(s2.Text)+"`")
+				}
+			}
+		}
+	}
+	return
 }
